@@ -31,7 +31,7 @@ def shards(tier, seed):
     nmax = 12 if tier == "quick" else 40
     out = []
     for mk in ("affine", "bn_dropout", "paramfree"):
-        for ok in ("tensor", "tuple2", "list3", "named2", "view2", "gradtrack"):
+        for ok in ("tensor", "tuple2", "list3", "named2", "view2", "gradtrack", "reused_list"):
             for lo in range(1, nmax + 1, 10):
                 out.append(dict(name="%s/%s/n%d-%d" % (mk, ok, lo, min(lo + 9, nmax)), model=mk, out=ok,
                                 ns=list(range(lo, min(lo + 9, nmax) + 1)), weight=lo * lo))
@@ -105,6 +105,13 @@ class Probe(torch.nn.Module):
                 yg = self.lin(xg.reshape(xg.shape[0], -1)) if self.kind != "paramfree" else xg.reshape(xg.shape[0], -1) @ self.W.T
                 (gx,) = torch.autograd.grad(yg[:, 0].sum(), xg)
             return y, (gx * X.double()).sum(dim=1).detach()
+        if self.out == "reused_list":
+            # the model hands back ONE list object that it clears and refills on every call
+            if not hasattr(self, "_outs"):
+                self._outs = []
+            self._outs.clear()
+            self._outs.extend([y, (y * 2).unsqueeze(-1)])
+            return self._outs
         if self.out == "view2":
             return y, X[:, :, 1:]                    # a view of the input the model was handed (cropped pass-through head)
         if self.out == "named2":
